@@ -140,16 +140,24 @@ var hostTables = &HTables{
 		"name.Resolve":           "ro",
 		"name.GetAddress":        "ro",
 		"blacklist.Check":        "ro",
-		// ---- package contract, defined outside the analysed files
-		"beginTx":       "mutQ", // statesql.go: writable litetree transaction
-		"beginReadOnly": "ro",   // statesql.go: read-only connection at a recovery point
-		// internal_operations.go: the optional operation log kept in vmContext.internalOpsCall (no chain state)
-		"logOperation":             "ro",
-		"logOperationResult":       "ro",
-		"logCall":                  "ro",
-		"getCurrentCall":           "ro",
-		"getInternalOperations":    "ro",
-		"markOperationsAsReverted": "ro",
+		// ---- package contract
+		// statesql.go is analysed (round 3): beginReadOnly, readOnlyConn, newReadOnlySqlTx, litetree.snapshotView and the
+		// implementations of sqlTx are extracted like everything else.  beginTx (writable litetree transaction; its body
+		// uses goto) stays a table entry: the whole call is forbidden in query mode.
+		"beginTx": "mutQ",
+		// internal_operations.go is analysed as well (round 3): no table entries.
+		// database/sql as used by statesql.go ("sql" is a state-bearing package: default-deny).  sql.Open and the
+		// Exec methods are classified by their argument (hostapi_deep.go: sqlCall, SQLPrefixes below).
+		"sql.DB.Ping":              "ro",
+		"sql.DB.Conn":              "ro",    // takes a connection of the pool of an already opened DB
+		"sql.DB.Close":             "txctl", // closes the handle
+		"sql.Conn.Close":           "txctl",
+		"sql.Conn.PingContext":     "ro",
+		"sql.Conn.BeginTx":         "mutQ",
+		"sql.Conn.QueryRowContext": "ro",
+		"sql.Tx.Commit":            "mut",
+		"sql.Tx.Rollback":          "restore",
+		"SQLiteConn.DBCacheFlush":  "txctl", // sqlite3.go: sqlite3_db_cacheflush
 		// vm.go: the chain reader handed to the VM (interface; implemented by chain.ChainDB, read-only methods)
 		"ChainAccessor.GetBestBlock": "ro",
 		"ChainAccessor.GetBlockByNo": "ro",
@@ -193,7 +201,7 @@ var hostTables = &HTables{
 		"savepoint": "mutQ", "begin": "txctl", "commit": "mut", "release": "txctl", "subSavepoint": "txctl", "subRelease": "txctl",
 		"rollback": "restore", "rollbackToSavepoint": "restore", "rollbackToSubSavepoint": "restore", "revertState": "restore",
 	},
-	StatePkgs: map[string]bool{"state": true, "statedb": true, "system": true, "name": true, "enterprise": true, "blacklist": true},
+	StatePkgs: map[string]bool{"state": true, "statedb": true, "system": true, "name": true, "enterprise": true, "blacklist": true, "sql": true},
 	BenignPkgs: map[string]bool{
 		"fmt": true, "strings": true, "errors": true, "strconv": true, "bytes": true, "big": true, "sha256": true, "hex": true, "base58": true,
 		"json": true, "jsoniter": true, "time": true, "sort": true, "os": true, "unsafe": true, "reflect": true, "rand": true, "context": true,
@@ -211,6 +219,7 @@ var hostTables = &HTables{
 		"GetAmountBigInt": true, "GetBalanceBigInt": true, "GetCodeHash": true, "MarshalJSON": true, "Microseconds": true, "Sub": true,
 		"IsEqual": true, "SerializeUncompressed": true, "Verify": true, "Decode": true, "UseNumber": true, "DisallowUnknownFields": true,
 		"Unmarshal": true, "Float64": true, "GetBestBlock": true, "GetBlockByNo": true,
+		"Fatal": true, "Printf": true, "Msgf": true, // loggers (sqlLgr, ctrLgr)
 	},
 	// writes to these fields are sinks
 	FieldSinks: map[string]string{
@@ -218,6 +227,7 @@ var hostTables = &HTables{
 		"eventCount":       "mut",
 		"nestedView":       "view",
 		"isQuery":          "query",
+		"isView":           "viewset", // executor.isView: decides whether executor.call opens the view bracket
 		"SqlRecoveryPoint": "mut",
 		"Balance":          "mut",
 		"Nonce":            "mut",
@@ -231,12 +241,14 @@ var hostTables = &HTables{
 	BenignFields: map[string]bool{
 		"curContract": true, "lastRecoveryPoint": true, "dbUpdateTotalSize": true, "seed": true, "callDepth": true, "remainedGas": true,
 		"traceFile": true, "service": true, "origin": true, "txHash": true, "blockInfo": true, "amount": true, "sender": true,
-		"tx": true, "ctrState": true, "callState": true, "err": true, "preErr": true, "jsonRet": true, "isView": true, "fname": true,
+		"tx": true, "ctrState": true, "callState": true, "err": true, "preErr": true, "jsonRet": true, "fname": true,
 		"isAutoload": true, "numArgs": true, "ci": true, "stateRevision": true, "sqlSaveName": true, "internalOpsCall": true,
 	},
 	BenignGlobals: map[string]bool{
 		"currentForkVersion": true, "contexts": true, "lastQueryIndex": true, "multicall_compiled": true, "maxContext": true,
 		"logInternalOperations": true, "ctrLgr": true, "mulAergo": true, "mulGaer": true, "zeroBig": true,
+		"nextOpId": true, // internal_operations.go: id counter of the in-memory operation log
+		"queryConn": true, // statesql.go: the *SQLiteConn of the connection the query driver opened last (ConnectHook)
 	},
 	RestoreFns: map[string]bool{
 		"luaDropEvent": true, // truncates ctx.events back to the count recorded when the enclosing pcall started
@@ -244,6 +256,33 @@ var hostTables = &HTables{
 	// C functions that run Lua code (vm.c): lua_pcall inside
 	ReenterC:     map[string]bool{"vm_pcall": true, "vm_loadcall": true},
 	QueryEntries: map[string]bool{"Query": true, "CheckFeeDelegation": true},
+	CtxBuilders: map[string]bool{"NewVmContextQuery": true, "NewVmContext": true},
+	ErrCtors: map[string]bool{"C.CString": true, "errors.New": true, "fmt.Errorf": true, "newVmError": true, "newVmSystemError": true,
+		"newDbSystemError": true},
+	SQLExecMethods: map[string]bool{"sql.Conn.ExecContext": true, "sql.Tx.Exec": true, "sql.Tx.ExecContext": true, "sql.DB.Exec": true,
+		"sql.DB.ExecContext": true},
+	SQLPrefixes: [][2]string{
+		{"pragma branch=", "txctl"},        // litetree: selects the commit this connection reads from (snapshotView); no data changes
+		{"pragma branch_truncate", "mut"},  // litetree: drops commits
+		{"release savepoint", "txctl"},
+		{"rollback to savepoint", "restore"},
+		{"savepoint", "mutQ"},
+		{"begin", "txctl"},
+		{"create table", "mutQ"},
+	},
+	// Functions whose control flow depends on a read-only flag in a way that is not "return an error":
+	// their bodies start with an `exempt` event, theorem refuse_exemptions pins the list.
+	RefuseExempt: map[string]string{
+		"luaSetRecoveryPoint": "internal callback of the pcall wrappers: in a read-only context it creates no recovery point and returns sequence number 0 without an error",
+		"luaGetDbHandle":      "opens the SQL handle: read-only connection (beginReadOnly) under isQuery, writable transaction otherwise; the refusal of writes is SQLite's (query_only) resp. luaCheckView in db_module.c",
+		"LuaGetDbHandleSnap":  "db snapshot selection is permitted only in a query (the test is `!isQuery => error`)",
+		"setRandomSeed":       "seeds the per-context PRNG from the block time stamp in a query and from previous block hash + tx hash otherwise",
+	},
+	// internal_operations.go: the in-memory operation log hanging off vmContext.internalOpsCall
+	TypedBenign: map[string]bool{
+		"InternalCall.Operations": true, "InternalCall.Contract": true, "InternalCall.Function": true, "InternalCall.Args": true,
+		"InternalCall.Amount": true, "InternalOperation.Result": true, "InternalOperation.Reverted": true, "InternalOperation.Call": true,
+	},
 	Assume: []HAssume{
 		{Fn: "luaSendAmount",
 			AnyOf: []string{"amountBig.Cmp(zeroBig) > 0", "amountBig.Cmp(zeroBig) == 0"},
@@ -264,7 +303,7 @@ var hostInternalCallbacks = map[string]bool{"luaClearRecovery": true, "luaDropEv
 	"luaViewStart": true, "luaViewEnd": true}
 
 // hostFiles: the analysed files of /repo/contract.
-var hostFiles = []string{"vm.go", "vm_callback.go", "vm_state.go"}
+var hostFiles = []string{"vm.go", "vm_callback.go", "vm_state.go", "statesql.go", "internal_operations.go"}
 
 // State-bearing types whose whole method set must be classified (inventory theorem `state_api_classified`).
 var hostStateTypes = map[string][]string{
